@@ -66,7 +66,13 @@ using namespace cds_utils;
 #include "utils/Coder/StatCoder.h"
 #include "utils/LogSequence.h"
 
+#ifdef LIBCSD_VERIF
+#undef MEMALLOC
+#endif
 #define MEMALLOC 32768
+#ifdef LIBCSD_VERIF
+#include "utils/VerifHooks.h"
+#endif
 
 class StringDictionaryRPFC : public StringDictionary {
 public:
